@@ -26,9 +26,26 @@ func (o *C04) Check(x *h.Exec, ev *h.Event) {
 	c := ev.Check
 	kinds := kindsOr(c, nil)
 	want := func(k string) bool { return len(kinds) == 0 || has(kinds, k) }
-	before := x.S.Snapshot()
+	// the light snapshot (everything but the parsed syntax trees, which are
+	// covered by the full snapshot at the end of the check) is compared after
+	// every query
+	before := x.S.SnapshotLight()
+	fullBefore := x.S.Snapshot()
+	defer func() {
+		if len(x.Viol) > 0 {
+			return
+		}
+		if after := x.S.Snapshot(); after != fullBefore {
+			field, ctx := h.SnapDiff(fullBefore, after)
+			x.Report("mutation", "query", field, fmt.Sprintf("the sequence of queries of this check changed shared state (syntax tree) at field %s\n%s", field, ctx), nil)
+		}
+	}()
 	sess := x.S.NewSession() // one decoder for the whole history
 	salt := uint64(0)
+	window := uint64(16)
+	if c != nil && c.Offsets != nil {
+		window = 1
+	}
 	run := func(q h.Query) bool {
 		salt++
 		q.Order = orderFor(c, salt)
@@ -38,7 +55,13 @@ func (o *C04) Check(x *h.Exec, ev *h.Event) {
 		} else {
 			r = x.RunIn(sess, q)
 		}
-		after := x.S.Snapshot()
+		// Snapshots are compared after every query when the check names its
+		// offsets explicitly (replay, minimisation) and after every 16th
+		// otherwise; a difference is then attributed to the window.
+		if window > 1 && salt%window != 0 {
+			return false
+		}
+		after := x.S.SnapshotLight()
 		if after != before {
 			field, ctx := h.SnapDiff(before, after)
 			kind := "ok"
@@ -48,7 +71,8 @@ func (o *C04) Check(x *h.Exec, ev *h.Event) {
 			if r.Panic != nil {
 				kind = "panicking"
 			}
-			x.Report("mutation", q.Kind, field, fmt.Sprintf("%s (%s query) changed shared state at field %s\n%s", q.Kind, kind, field, ctx), &q)
+			site := "query" // the same in both modes, so that minimisation may narrow the window
+			x.Report("mutation", site, field, fmt.Sprintf("%s (%s query, or one of the %d before it) changed shared state at field %s\n%s", q.Kind, kind, window-1, field, ctx), &q)
 			return true
 		}
 		if r.Err != nil {
